@@ -175,7 +175,7 @@ contract(LAN + "_LanProtocol.write",
          params={"self": "obj:" + V3, "data": "bytes"},
          requires=["self._transport is not None"],
          raises={LAN + "ProtocolError": {"post": {"nothing_written": "len(events('tx')) == 0"}}},
-         emits={"tx": "data", "tx_on": "self._transport"},
+         emits={"tx": "data", "tx_on": "self._transport", "io": "'tx'"},
          ensures={"written_once": "len(events('tx')) == 1 and events('tx')[0] == data"})
 
 contract(V3 + ".write",
@@ -186,7 +186,7 @@ contract(V3 + ".write",
                  "builtins.TypeError": {"when": "packet_type != 6 and packet_type != 0",
                                         "post": {"nothing_written": "len(events('tx')) == 0", "counter_unchanged": "self._packet_id == old(self._packet_id)"}}},
          emits={"tx": "hs_request(old(self._packet_id), data) if packet_type == 0 else v3_data_packet(self, old(self._packet_id), data)",
-                "tx_on": "self._transport"},
+                "tx_on": "self._transport", "io": "'tx'"},
          post_let={"T": "events('tx')"},
          ensures={"one_packet": "len(T) == 1",
                   "counter_advances_and_wraps": "self._packet_id == (old(self._packet_id) + 1) & 0xFFF",
@@ -322,7 +322,7 @@ contract(LANC + "._read",
 contract(LANC + "._read_available",
          params={"self": "obj:" + LANC},
          requires=["self._protocol is not None", "lan_inv(self)"],
-         yields="bytes",
+         yields="bytes", emits={"io": "'drain'"},
          modifies=["self._protocol._queue"],
          raises={LAN + "ProtocolError": {}},
          loops={"0": {"match": "True", "modifies": ["self._protocol._queue"]}},
@@ -393,6 +393,10 @@ contract(LANC + ".send",
                   # C01 glue: what goes on the wire is the V2 packet of exactly this frame and device id (V3: inside an encrypted request)
                   "c01.packet_wraps_the_frame": "pkcs7(data) == aes_ecb_dec(md5(SIGN_KEY), final('packet')[40:-16]) and final('packet')[20:28] == self._device_id.to_bytes(8, 'little')",
                   "c01.packet_is_what_is_written": "implies(not isinstance(self._protocol, _LanProtocolV3), events('tx')[-1] == final('packet')) and implies(isinstance(self._protocol, _LanProtocolV3), is_data_packet_for(events('tx')[-1], self._protocol, final('packet')))",
+                  # C01 (interleaved unsolicited frames): frames that arrived while idle are consumed before the request goes out, so the
+                  # blocking read can only be answered by something that arrived after it; whatever else is available is returned with it
+                  "c01.stale_frames_are_drained_before_the_request_goes_out": "events('io')[0] == 'drain' and 'tx' in events('io')",
+                  "c01.everything_available_is_returned": "events('io')[-1] == 'drain'",
                   "data_goes_out_on_the_current_connection": "all(same_object(t, self._protocol._transport) for t in events('tx_on'))"},
          loops={"0": {"match": "_read_available", "havoc": {"responses": "list:bytes"}},
                 "1": {"match": "retries > 0", "ghost_init": {"n": "0"}, "havoc": {"n": "int[0,8]", "responses": "list:bytes"},
